@@ -400,30 +400,36 @@ def Machine.next (m : Machine) (input : List Nat) (c : Nat × Nat) : Option (Nat
   | none => none
   | some (s', p') => if s' < m.nstates ∧ p' ≤ input.length then some (s', p') else none
 
-/-- the loop with the crumb check: returns the passes made and how it ended -/
+/-- how the loop ended -/
 inductive Stop
   | noTransition | stasis | fuel
 deriving Repr, DecidableEq
 
-def runCrumbs (m : Machine) (input : List Nat) : Nat → List (Nat × Nat) → Nat × Nat → Nat × Stop
-  | 0, _, _ => (0, .fuel)
+structure Run where
+  passes : Nat                 -- passes of the loop (states run)
+  stop : Stop
+  last : Nat × Nat             -- the crumb (state, position) of the last state that ran
+deriving Repr, DecidableEq
+
+def runCrumbs (m : Machine) (input : List Nat) : Nat → List (Nat × Nat) → Nat × Nat → Run
+  | 0, _, c => ⟨0, .fuel, c⟩
   | fuel + 1, seen, c =>
     match m.next input c with
-    | none => (0, .noTransition)
+    | none => ⟨1, .noTransition, c⟩
     | some c' =>
-      if seen.contains c' then (1, .stasis)
+      if seen.contains c' then ⟨1, .stasis, c⟩
       else
-        let (n, st) := runCrumbs m input fuel (c' :: seen) c'
-        (n + 1, st)
+        let r := runCrumbs m input fuel (c' :: seen) c'
+        { r with passes := r.passes + 1 }
 
 /-- the same loop without the check (what a parser loop that stops making progress would do) -/
-def runBlind (m : Machine) (input : List Nat) : Nat → Nat × Nat → Nat × Stop
-  | 0, _ => (0, .fuel)
+def runBlind (m : Machine) (input : List Nat) : Nat → Nat × Nat → Run
+  | 0, c => ⟨0, .fuel, c⟩
   | fuel + 1, c =>
     match m.next input c with
-    | none => (0, .noTransition)
+    | none => ⟨1, .noTransition, c⟩
     | some c' =>
-      let (n, st) := runBlind m input fuel c'
-      (n + 1, st)
+      let r := runBlind m input fuel c'
+      { r with passes := r.passes + 1 }
 
 end Cpppo.Serve
